@@ -4,3 +4,8 @@ claim("C02",
   "Decides, on every path and call site of the current tree, the structural gate the property rests on: the only store writer in the subscriber packages is the fetch callback; its commit is dominated by bytes.Equal(c.Hash(), SumStream(TeeReader(body, w), c's own hash function and length)), the committed link and the requested resource are that same c, the writer has no other use, the trusted traversal link system reads only after a verified fetch, and hooks run only after the traversal returned nil. It does not decide hash collision resistance or the store implementation; 'after any sequence of syncs every stored block hashes to its CID' follows from the gate only under those assumptions.",
   "Trusted: go/types, go/ssa dominators, go-multihash SumStream, io.TeeReader, the ipld-prime write-opener contract (nothing visible before commit).",
   "DESIGN.md §4 C02")
+claim("C16",
+  "lock-pairing dataflow on go/cfg + SSA dominance + blocking-operation table for package announce",
+  "Decides for every path of every function in package announce: each mutex acquire is released on all exits (the 'no return path leaves the receiver unusable' clause is exactly this, and it is where the early-return defect fixed in 7f78389 lived); each close(ch) runs at most once; each blocking operation has a shutdown alternative or a counterpart whose liveness is an obligation (cancel precedes wait; watcher leaves its loop on cancel/closed); the watcher goroutine is spawned only with a subscription; the closed flag is tested under the mutex before the cache is touched; done/closed edges return ErrClosed. Global deadlock freedom over all interleavings and promptness in wall-clock terms are not decided.",
+  "Trusted: go/cfg (with the select re-attribution fix-up), go/ssa dominators, Go's mutex/channel semantics, go-libp2p-pubsub's Subscription.Next returning on cancel.",
+  "DESIGN.md §4 C16")
